@@ -62,8 +62,11 @@ theorem C06_every_result_is_a_tier_answer (hot cold : List Cand) (k : Nat) (x : 
           x.id ∈ (l.foldl (fun acc c => c :: acc.filter (·.id != c.id)) acc).map (·.id) := by
         intro l
         induction l with
-        | nil => intro acc h; rcases h with h | h; · cases h
-                                                   · exact h
+        | nil =>
+          intro acc h
+          rcases h with h | h
+          · cases h
+          · exact h
         | cons y ys ih =>
           intro acc h
           simp only [List.foldl_cons]
@@ -141,7 +144,7 @@ theorem C06_results_exist {D : Type} [DecidableEq D] (digest : Vec → D) (s : T
     canonical token and payload at the time it is examined — the document was overwritten past
     the mirror, or deleted — is not kept (head position: the state is the current one). -/
 theorem C06_stale_mirror_never_served {D : Type} [DecidableEq D] (digest : Vec → D) (s : TState D)
-    (c : Cand) (rest : List Cand) (h : HotEntry D)
+    (c : Cand) (rest : List Cand) (h : HotDoc D)
     (hh : alookup c.id s.hot = some h)
     (hstale : canonicalState digest s.cold c.id h.vec h.tok ≠ .matched)
     (hnodup : c.id ∉ rest.map (·.id)) :
